@@ -119,6 +119,8 @@ fn rac_prose_offsets() {
         RacSeg { text: "<b>😀</b> bold words\n\n", words: &["bold", "words"] },
         RacSeg { text: "| cell one | cell 😀 two |\n|---|---|\n| three | four |\n\n", words: &["cell", "one", "cell", "two", "three", "four"] },
         RacSeg { text: "日本語 mixed text\n\n", words: &["mixed", "text"] },
+        // a character reference is markup, not prose, and must not shift what follows
+        RacSeg { text: "rights &copy; reserved &#169; here &amp; there\n\n", words: &["rights", "reserved", "here", "there"] },
         RacSeg { text: "*emphasis* and **strong é** words\n\n", words: &["emphasis", "and", "strong", "é", "words"] },
     ];
     let mut cases = 0u64;
